@@ -157,16 +157,25 @@ def q10(model: Model, rep: Report):
     s = sym(f.self_name)
     calls = []   # call terms, wherever the question is asked (statement loops, or the value when the scan is written as comprehensions)
 
+    domains: Dict[str, Term] = {}     # what the elements of a comprehension range over, by the label its bound elements carry
+
+    def note_domains(t):
+        for c_ in subterms(t, lambda y: y[0] == "comp"):
+            for dom_, _c in c_[3]:
+                domains.setdefault(show(dom_), dom_)
+
     def walk(p):
         for e in p.events:
             if e.term is not None and e.kind in ("assign", "effect", "branch"):
                 calls.extend(find_calls(e.term, "get_requires_parking"))
+                note_domains(e.term)
             if e.kind == "loop" and e.term is not None:
                 for bp in e.extra["paths"]:
                     walk(bp)
         calls.extend(find_calls(p.cond, "get_requires_parking"))
         if p.value is not None:
             calls.extend(find_calls(p.value, "get_requires_parking"))
+            note_domains(p.value)
     for p in ps:
         walk(p)
 
@@ -187,6 +196,14 @@ def q10(model: Model, rep: Report):
         seen.add(repr(edge))
         n += 1
         ed = devar(edge)
+        for _ in range(3):
+            # an element of ``(f(step) for step in STEPS)`` (every element, nothing filtered) is ``f(step)`` of a step
+            if ed[0] == "bound" and ed[3] in domains:
+                dom_ = devar(domains[ed[3]])
+                if dom_[0] == "comp" and dom_[1] in ("gen", "list") and len(dom_[3]) == 1 and not dom_[3][0][1]:
+                    ed = devar(dom_[2])
+                    continue
+            break
         fb = free_bounds(ed)
         steps = [b for b in fb if b[3].endswith("gate_operations")]
         others = [b for b in fb if b not in steps]
@@ -956,6 +973,8 @@ def q9(model: Model, rep: Report):
         dom = member[0][2]
         if dom == ("attr", s, "qubit_ids") and "qubit_ids" in E.properties:
             dom = Evaluator(model).value_of(E.properties["qubit_ids"], self_cls=E)
+        from ..listflow import unroll_comp
+        dom = unroll_comp(dom)
         items = set(dom[1]) if dom[0] in ("list", "tuple", "set") else None
         if items is None:
             raise AnalysisError(f"EdgeIDObj.contains: membership domain not read: {show(dom)}")
@@ -1018,7 +1037,8 @@ def q9(model: Model, rep: Report):
         fq = E.properties["qubit_ids"]
         v = Evaluator(model).value_of(fq, self_cls=E)
         from ..sym import _plain_display
-        v = _plain_display(v)
+        from ..listflow import unroll_comp
+        v = _plain_display(unroll_comp(v))
         while v[0] == "call" and v[1] in ("list", "tuple") and len(v[2]) == 1 and not v[3] and _plain_display(v[2][0])[0] in ("list", "tuple"):
             v = (v[1],) + _plain_display(v[2][0])[1:]       # list(<tuple display>) / tuple(<list display>) are the display
         ok = v[0] in ("list", "tuple") and sorted(map(show, v[1])) == sorted(map(show, (q0, q1))) and len(v[1]) == 2
